@@ -825,7 +825,7 @@ func (u *Unmarshaler) processNamedField(field reflect.StructField, value reflect
 		return u.processNamedFieldWithoutValue(field.Type, value, opts, fullName)
 	}
 
-	if u.opts.fromArray {
+	if u.opts.fromArray && mapValue != nil {
 		fieldKind := field.Type.Kind()
 		if fieldKind != reflect.Slice && fieldKind != reflect.Array {
 			valueKind := reflect.TypeOf(mapValue).Kind()
